@@ -9,7 +9,8 @@ SPEC = dict(
                 "boundary statistics (n = 0, 1, N, N+1 (uint64 wrap); N up to 2^64-1 incl. 2^53+-1 and 2^63+1025; f in "
                 "{-1, 0, 1 .. 2^20}; dl in {0 .. 2^24+1, max finite float32 pattern, Inf pattern}; avgdl from 2^-40 to 2^60, "
                 "docCount = 0, nil statistics; non-finite norms) and end-to-end scores / explanation trees of term, boolean, "
-                "match and match-all queries on seeded random corpora, with and without ExplainScores; float64 values are "
+                "match and match-all queries on seeded random corpora, with and without ExplainScores, plus structured corpora (the "
+                "same documents with and without a composite field; a sparse field with pending deletions and updates); float64 values are "
                 "compared as bit patterns (math.Log through a per-case table whose argument the model re-evaluates bit for "
                 "bit). A case is non-trivial when its statistics satisfy the hypotheses of the laws (1 <= n <= N, f >= 1, "
                 "consistent lengths) / the tree has more than one term leaf; distinct = distinct Coq case terms. Oracle "
